@@ -34,11 +34,7 @@ class PhaseSpaceGenerator(object):
     """Phase Space Generator for n-body decay"""
 
     def __init__(self, m0, mass):
-        self.m_mass = []
         self.set_decay(m0, mass)
-        self.sum_mass = sum(self.m_mass)
-        self.mass_range = self.get_mass_range()
-        self.mass_generator = [None for i in self.mass_range]
 
     def get_mass_range(self):
         sm = self.sum_mass - self.m_mass[-1] - self.m_mass[-2]
@@ -258,6 +254,7 @@ class PhaseSpaceGenerator(object):
         self.m0 = m0
         self.m_nt = len(mass)
         self.m_teCmTm = m0
+        self.m_mass = []
         for i in mass:
             self.m_mass.append(i)
             self.m_teCmTm = self.m_teCmTm - i
@@ -273,6 +270,9 @@ class PhaseSpaceGenerator(object):
             p = get_p(emmax, emmin, self.m_mass[-n - 1])
             wtmax *= p
         self.m_wtMax = tf.convert_to_tensor(wtmax, dtype="float64")
+        self.sum_mass = sum(self.m_mass)
+        self.mass_range = self.get_mass_range()
+        self.mass_generator = [None for i in self.mass_range]
 
 
 class ChainGenerator:
